@@ -893,7 +893,98 @@ def oracle_api_program(evs, meta, out):
     # discovery ticks (Ta = 20 ms, only while checks or gathering are pending) and keepalives
     for e in evs:
         if e.kind == "stat" and e.f[0] == "run" and e.f[1] == "20000":
-            d = int(e.f[-1].split("=")[1])
-            if d > 20000 / 20 * 2 * 3 + 4000:     # two agents, <= 3 Ta-paced timers each, plus slack for packets
-                return "%d main-loop dispatches in 20 s of idle virtual time (timers firing faster than their periods)" % d
+            d = int(e.f[-1].split("=")[1]); sl = int(e.f[-2].split("=")[1])
+            # sleeps = times the main loop went back to sleep and was woken by a timer or packet: two agents, <= 3 Ta-paced timers each, slack for packets.
+            # (dispatches per wake-up can reach ~1000 in this simulator, whose clock advances 1 us per dispatch: the keepalive timer is re-armed with
+            #  (due - now) / 1000 ms rounded down, so it fires up to 1 ms early and re-arms with 0 ms until the due time — bounded by Properties_C12)
+            if sl > 20000 / 20 * 2 * 3 + 4000:
+                return "the main loop was woken %d times in 20 s of idle virtual time (timers firing faster than their periods)" % sl
+            if d > 1200 * (sl + 1):
+                return "%d dispatches for %d wake-ups in 20 s of idle virtual time (zero-interval timer loop)" % (d, sl)
+    return None
+
+
+# ------------------------------------------------------------------ C02: data integrity (UDP datagrams, reliable byte stream)
+def gen_data(rng, i):
+    reliable = rng.random() < 0.4
+    opt = OPT_RELIABLE if reliable else 0
+    opts = (opt | rng.choice([0, OPT_REGULAR]), opt | rng.choice([0, OPT_REGULAR]))
+    ncomp = rng.choice([1, 2])
+    ops = two_agents(rng, 0, opts, rng.choice([(1, 0), (0, 1)]), (("10.0.0.1",), ("10.0.1.1",)), ncomp)
+    drop = rng.choice([0, 0, 0.1, 0.3]) if reliable else rng.choice([0, 0, 0.2])
+    ops.append("net,%s,0,%d,%d,3" % (drop, rng.choice([1, 5]), rng.choice([5, 40])))
+    ops += ["gather,0,1", "gather,1,1"] + signalling(rng, ncomp) + ["run,8000"]
+    sizes = [1, 2, 19, 20, 21, 100, 576, 1200, 1280, 1472, 1500, 4096, 9000, 63487, 63488, 63489, 65507, 65535]
+    for _ in range(rng.randrange(3, 25)):
+        a = rng.randrange(2); c = rng.randrange(1, ncomp + 1)
+        if reliable:
+            ops.append("sendstream,%d,1,%d,%d,%d" % (a, c, rng.choice(sizes + [rng.randrange(1, 200000)]), rng.randrange(250)))
+        else:
+            n = rng.choice(sizes + [rng.randrange(1, 65536)])
+            ops.append("sendv,%d,1,%d,%d,%d,%d%s" % (a, c, n, rng.randrange(250), rng.randrange(1 << 20), ",stunlike" if rng.random() < 0.25 else ""))
+        if rng.random() < 0.5:
+            ops.append("run,%d" % rng.choice([1, 20, 300]))
+    ops.append("run,%d" % (60000 if reliable else 3000))
+    for a in (0, 1):
+        for c in range(1, ncomp + 1):
+            ops.append("streamhash,%d,1,%d" % (a, c))
+    ops += final_queries(ncomp)
+    return "data%d %s" % (i, " ".join(ops)), {"kind": "data-reliable" if reliable else "data-udp", "ncomp": ncomp, "drop": drop}
+
+
+def oracle_data_full(evs, meta):
+    ncomp = meta["ncomp"]
+    if meta["kind"] == "data-udp":
+        sent = {}
+        for e in evs:
+            if e.kind == "api" and e.f[1] == "send" and not e.f[-1].startswith("=-"):
+                if int(e.f[-1][1:]) != int(e.f[4]):
+                    return "send reported %s bytes for a %s-byte message" % (e.f[-1][1:], e.f[4])
+                key = (e.f[0], e.f[3], e.f[4], e.f[5])      # sender, component, length, hash
+                sent[key] = sent.get(key, 0) + 1
+        got = {}
+        for e in evs:
+            if e.kind == "rx":
+                key = (str(1 - int(e.f[0])), e.f[2], e.f[3], e.f[4])
+                got[key] = got.get(key, 0) + 1
+                if key not in sent:
+                    return "agent %s component %s received a %s-byte message (hash %s) the peer never sent on that component (altered, merged or split)" % (e.f[0], e.f[2], e.f[3], e.f[4])
+                if got[key] > sent[key]:
+                    return "agent %s received the %s-byte message (hash %s) more often than it was sent (no duplication in this network)" % (e.f[0], e.f[3], e.f[4])
+        if meta.get("drop") == 0:
+            for key, n in sent.items():
+                if got.get(key, 0) != n:
+                    return "loss-free network: the %s-byte message (hash %s) sent by agent %s on component %s was delivered %d of %d times" % (key[2], key[3], key[0], key[1], got.get(key, 0), n)
+        return None
+    # reliable: the byte stream received equals the byte stream accepted by the send API
+    st = {}
+    for e in evs:
+        if e.kind == "strm":
+            st[(e.f[0], e.f[2])] = (e.f[3], e.f[4])
+    for a in ("0", "1"):
+        for c in range(1, ncomp + 1):
+            tx = st.get((a, str(c))); rx = st.get((str(1 - int(a)), str(c)))
+            if not tx or not rx:
+                continue
+            txn, txh = map(int, tx[0][3:].split(":")); rxn, rxh = map(int, rx[1][3:].split(":"))
+            # rebuild the byte stream the send API accepted and hash the prefix the peer has got so far
+            stream = bytearray()
+            for e in evs:
+                if e.kind == "api" and e.f[0] == a and e.f[1] == "sendstream" and e.f[3] == str(c):
+                    n, seed, r = int(e.f[4]), int(e.f[5]), int(e.f[-1][1:])
+                    if r > n:
+                        return "nice_agent_send accepted %d bytes of a %d-byte buffer" % (r, n)
+                    if r > 0:
+                        stream += bytes(((seed * 131 + k * 13 + (k >> 7)) & 0xff) for k in range(r))
+            if len(stream) != txn:
+                return "internal: stream reconstruction mismatch"
+            if rxn > txn:
+                return "reliable mode: the peer received %d bytes, only %d were sent (agent %s component %d)" % (rxn, txn, a, c)
+            h = 0
+            for b in stream[:rxn]:
+                h = ((h * 16777619) & 0xffffffff) ^ b
+            if h != rxh:
+                return "reliable mode: the %d bytes received by the peer are not the first %d bytes of the stream agent %s sent on component %d" % (rxn, rxn, a, c)
+            if meta.get("drop") == 0 and rxn != txn:
+                return "reliable mode, loss-free network: only %d of %d bytes arrived within a minute (agent %s component %d)" % (rxn, txn, a, c)
     return None
